@@ -107,7 +107,7 @@ def run_check(pid, mod, args, scratch, t0):
     tier = args.tier
     nshards = args.shards or getattr(mod, "SHARDS", {}).get(tier, 16)
     nshards = max(1, min(nshards, os.cpu_count() or 1, 16))
-    limit = getattr(mod, "TIER_LIMIT_S", TIER_LIMIT_S)[tier]
+    limit = float(os.environ.get("VERIF_TIER_LIMIT_S") or getattr(mod, "TIER_LIMIT_S", TIER_LIMIT_S)[tier])
     env = child_env()
     env["VERIF_DEADLINE"] = str(t0 + limit * 0.85)
     procs = []
@@ -132,10 +132,16 @@ def run_check(pid, mod, args, scratch, t0):
         try:
             p.wait(timeout=max(remaining, 1))
         except subprocess.TimeoutExpired:
-            p.kill()
-            p.wait()
+            # ask the worker to hand over its partial result (SIGTERM), then make sure it is gone
+            p.terminate()
+            try:
+                p.wait(timeout=20)
+            except subprocess.TimeoutExpired:
+                p.kill()
+                p.wait()
             truncated = True
-            harness_errors.append("%s exceeded the tier time limit and was stopped" % name)
+            if not os.path.exists(cmd[9]):
+                harness_errors.append("%s exceeded the tier time limit and left no result" % name)
         logf.close()
     results = []
     for name, cmd, p, logf in procs:
